@@ -8,7 +8,11 @@ VARIABLE i
 \* protected part of a secret key body b whose public fields end at p (1-based index of the usage octet = p + 1)
 Prot(b, p) ==
   LET u == b[p + 1] IN
-  IF u \notin {254, 255} \/ Len(b) < p + 4 THEN [ok |-> FALSE]
+  IF u \notin {0, 254, 255} THEN
+    \* the usage octet is the cipher id (5.5.3): its IV follows directly, then the encrypted integers and 16-bit checksum
+    (IF BlockLen(u) = 0 \/ p + 1 + BlockLen(u) >= Len(b) THEN [ok |-> FALSE]
+     ELSE [ok |-> TRUE, usage |-> u, sym |-> u, spec |-> 0, iv |-> SubSeq(b, p + 2, p + 1 + BlockLen(u)), ct |-> SubSeq(b, p + 2 + BlockLen(u), Len(b))])
+  ELSE IF u = 0 \/ Len(b) < p + 4 THEN [ok |-> FALSE]
   ELSE LET sym == b[p + 2]  spec == b[p + 3]
            sl == IF spec = 0 THEN 2 ELSE IF spec = 1 THEN 10 ELSE IF spec = 3 THEN 11 ELSE 0
            bs == BlockLen(sym) IN
@@ -33,7 +37,8 @@ RecoverEv(e) ==
 ForeignEv(e) ==
   LET pr == Prot(e.body, e.publen) IN
   IF ~pr.ok \/ Len(pr.ct) # Len(e.pt) \/ Secret(e.pt, e.usage) # e.orig_secret THEN "harness.foreign-layout"
-  ELSE IF e.usage = 255 /\ ~PlainOK(e.pt, 255, <<>>) THEN "harness.foreign-checksum"
+  ELSE IF e.usage # 254 /\ ~PlainOK(e.pt, 255, <<>>) THEN "harness.foreign-checksum"
+  ELSE IF e.raised /\ e.usage \notin {254, 255} /\ ~e.loaded THEN "ok"            \* the pre-S2K form may be refused at load
   ELSE IF e.raised THEN "C06.foreign-form"
   ELSE IF ~e.loaded_protected THEN "C06.foreign-form"
   ELSE IF ~e.wrong_refused THEN "C06.wrong-pass"
